@@ -63,20 +63,24 @@ S2T(subs, keepAsDir, rootName, noLinks) ==      \* sequence of [path, kind, link
 
 (* ---- tar2sqfs attribute options: --no-keep-time (-k) and --no-xattr (-x), with and without --root-becomes ---- *)
 (* one archive entry with a time stamp and possibly an xattr; directories that are only implied get the defaults (time 0) *)
-AEntry == [path : {<<"r">>, <<"r", "x">>, <<"y", "x">>}, kind : {"dir", "file"}, mtime : {5, 7}, xa : BOOLEAN]
+(* time stamps are symbolic: "5" in range, "big" = 2^33 + 5 (PAX / base-256), "neg" = -86400; the image holds 32 bit unsigned seconds, *)
+(* out of range values are clamped ("max" = 2^32 - 1, "0").  late = the entry is a directory whose record comes AFTER one of its      *)
+(* children, i.e. the directory exists implicitly by the time its own attributes arrive.                                              *)
+AEntry == [path : {<<"r">>, <<"r", "x">>, <<"y", "x">>}, kind : {"dir", "file"}, mtime : {"5", "big", "neg"}, xa : BOOLEAN, late : BOOLEAN]
+Clamp(m) == CASE m = "big" -> "max" [] m = "neg" -> "0" [] OTHER -> m
 T2SAttr(e, rootBecomes, noKeepTime, noXattr) ==      \* set of [path, mtime, xa, implicit] in the image; path <<>> = the root inode
   LET kept == ~rootBecomes \/ IsPrefix(Root, e.path)
       p == IF rootBecomes THEN Drop(e.path, 1) ELSE e.path
-      own == [path |-> p, mtime |-> (IF noKeepTime THEN 0 ELSE e.mtime), xa |-> (e.xa /\ ~noXattr), implicit |-> FALSE]
-      parents == {[path |-> SubSeq(p, 1, k), mtime |-> 0, xa |-> FALSE, implicit |-> TRUE] : k \in 0..(Len(p) - 1)}
-  IN IF ~kept THEN {[path |-> <<>>, mtime |-> 0, xa |-> FALSE, implicit |-> TRUE]}
+      own == [path |-> p, mtime |-> (IF noKeepTime THEN "0" ELSE Clamp(e.mtime)), xa |-> (e.xa /\ ~noXattr), implicit |-> FALSE]
+      parents == {[path |-> SubSeq(p, 1, k), mtime |-> "0", xa |-> FALSE, implicit |-> TRUE] : k \in 0..(Len(p) - 1)}
+  IN IF ~kept THEN {[path |-> <<>>, mtime |-> "0", xa |-> FALSE, implicit |-> TRUE]}
      ELSE {own} \cup {q \in parents : q.path # p}
 AttrRefused(e, rootBecomes) == rootBecomes /\ e.path = Root /\ e.kind # "dir"
 
 (* ---- properties of the specification itself ---- *)
 VARIABLES arch, rb, nr, subs, kad, rn, nl, ae, nk, nx
 vars == <<arch, rb, nr, subs, kad, rn, nl, ae, nk, nx>>
-AE0 == [path |-> <<"r">>, kind |-> "dir", mtime |-> 5, xa |-> FALSE]
+AE0 == [path |-> <<"r">>, kind |-> "dir", mtime |-> "5", xa |-> FALSE, late |-> FALSE]
 WellFormed(a) == /\ \A i, j \in 1..Len(a) : i # j => a[i].path # a[j].path
                  /\ \A i, j \in 1..Len(a) : (i # j /\ IsPrefix(a[i].path, a[j].path)) => (a[i].kind = "dir" /\ i < j)   \* parents are directories and come first
 A1 == << [path |-> <<"x">>, kind |-> "file", tgt |-> "-"] >>
@@ -87,7 +91,7 @@ Init == IF Side = "t2s"
              /\ subs = {} /\ kad = FALSE /\ rn = "-" /\ nl = FALSE /\ ae = AE0 /\ nk = FALSE /\ nx = FALSE
         ELSE IF Side = "attr"
         THEN /\ arch = A1 /\ nr = FALSE /\ subs = {} /\ kad = FALSE /\ rn = "-" /\ nl = FALSE
-             /\ ae \in AEntry /\ rb \in BOOLEAN /\ nk \in BOOLEAN /\ nx \in BOOLEAN
+             /\ ae \in AEntry /\ (ae.late => ae.kind = "dir") /\ rb \in BOOLEAN /\ nk \in BOOLEAN /\ nx \in BOOLEAN
         ELSE /\ arch = A1 /\ rb = FALSE /\ nr = FALSE /\ ae = AE0 /\ nk = FALSE /\ nx = FALSE
              /\ subs \in SubdirSets /\ kad \in BOOLEAN /\ rn \in {"-", ".", "n"} /\ nl \in BOOLEAN
 Next == UNCHANGED vars
@@ -104,7 +108,8 @@ LinksResolve == LET o == S2T(subs, kad, rn, nl) IN
 RoundTripShape == LET o == S2T({}, FALSE, "n", nl) IN
                   [i \in 1..(Len(o) - 1) |-> Drop(o[i + 1].path, 1)] = [i \in 1..Len(Img) |-> Img[i].path]
 (* the options only ever remove information: with -k no archive time stamp, with -x no xattr reaches the image *)
-AttrOptionsHonoured == \A n \in T2SAttr(ae, rb, nk, nx) : (nk => n.mtime = 0) /\ (nx => ~n.xa) /\ (n.implicit => (n.mtime = 0 /\ ~n.xa))
+AttrOptionsHonoured == \A n \in T2SAttr(ae, rb, nk, nx) : (nk => n.mtime = "0") /\ (nx => ~n.xa) /\ (n.implicit => (n.mtime = "0" /\ ~n.xa))
+                                                        /\ n.mtime \in {"0", "5", "max"}          \* always representable in 32 bit
 EmitAttr == Emit => PrintT(<<"ATTR", ToJson([e |-> ae, rb |-> rb, nk |-> nk, nx |-> nx, refused |-> AttrRefused(ae, rb), out |-> T2SAttr(ae, rb, nk, nx)])>>)
 EmitOK == Emit => PrintT(<<"RESULT", ToJson([arch |-> arch, rb |-> rb, nr |-> nr, refused |-> T2SRefused(arch, rb), out |-> T2S(arch, rb, nr)])>>)
 EmitS2T == Emit => PrintT(<<"S2T", ToJson([subs |-> subs, kad |-> kad, rn |-> rn, nl |-> nl, out |-> S2T(subs, kad, rn, nl)])>>)
